@@ -67,6 +67,16 @@ class SphinxRenderer(DocutilsRenderer):
 
         wrap_node.append(inner_node)
 
+    def _abs_path(self, path: str) -> str | None:
+        """The absolute path of a link destination, relative to the current document.
+
+        None if the destination cannot be a path at all (it contains a NUL character).
+        """
+        try:
+            return self.sphinx_env.relfn2path(path, self.sphinx_env.docname)[1]
+        except ValueError:
+            return None
+
     def _handle_relative_docs(self, destination: str) -> str:
         """Make the path relative to an "including" document
 
@@ -95,11 +105,11 @@ class SphinxRenderer(DocutilsRenderer):
         path_dest, *_path_ids = destination.split("#", maxsplit=1)
         path_id = _path_ids[0] if _path_ids else None
         explicit = (token.info != "auto") and (len(token.children or []) > 0)
-        _, abs_path = self.sphinx_env.relfn2path(path_dest, self.sphinx_env.docname)
-        docname = self.sphinx_env.path2doc(abs_path)
+        abs_path = self._abs_path(path_dest)
+        docname = self.sphinx_env.path2doc(abs_path) if abs_path else None
         if not docname:
             self.create_warning(
-                f"Could not find document: {abs_path}",
+                f"Could not find document: {abs_path or path_dest}",
                 MystWarnings.XREF_MISSING,
                 line=token_line(token, 0),
                 append_to=self.current_node,
@@ -122,10 +132,10 @@ class SphinxRenderer(DocutilsRenderer):
             destination = destination[5:]
         destination = self._handle_relative_docs(destination)
         if "://" not in destination and self.sphinx_env.srcdir:
-            _, abs_path = self.sphinx_env.relfn2path(destination, self.sphinx_env.docname)
-            if not os.access(abs_path, os.R_OK):
+            abs_path = self._abs_path(destination)
+            if abs_path is None or not os.access(abs_path, os.R_OK):
                 self.create_warning(
-                    f"Could not find file: {abs_path}",
+                    f"Could not find file: {abs_path or destination}",
                     MystWarnings.XREF_MISSING,
                     line=token_line(token, 0),
                     append_to=self.current_node,
@@ -160,8 +170,8 @@ class SphinxRenderer(DocutilsRenderer):
 
         potential_path: None | Path = None
         if self.sphinx_env.srcdir:  # not set in some test situations
-            _, path_str = self.sphinx_env.relfn2path(path_dest, self.sphinx_env.docname)
-            potential_path = Path(path_str)
+            path_str = self._abs_path(path_dest)
+            potential_path = Path(path_str) if path_str else None
 
         if potential_path and _is_file(potential_path):
             docname = self.sphinx_env.path2doc(str(potential_path))
